@@ -778,6 +778,32 @@ class SymPattern:
             return _out(out)
         return self._real.sub(repl, s, count)
 
+    def finditer(self, s, *a):
+        if isinstance(s, SymStr):
+            pos, n = (a[0] if a else 0), len(s.cps)
+            while pos <= n:
+                m = None
+                while pos <= n:
+                    m = self._run(s, pos, False)
+                    if m is not None:
+                        break
+                    pos += 1
+                if m is None:
+                    return
+                yield m
+                pos = m.end() if m.end() > m.start() else m.end() + 1
+            return
+        yield from self._real.finditer(s, *a)
+
+    def findall(self, s, *a):
+        if isinstance(s, SymStr):
+            out = []
+            for m in self.finditer(s, *a):
+                g = self._real.groups
+                out.append(m.group(0) if g == 0 else (m.group(1) if g == 1 else m.groups('')))
+            return out
+        return self._real.findall(s, *a)
+
     def split(self, s, maxsplit=0):
         if isinstance(s, SymStr):
             if maxsplit or self._real.groups:
@@ -840,9 +866,15 @@ class ReProxy:
     def split(self, pattern, s, maxsplit=0, flags=0):
         return self.compile(pattern, flags).split(s, maxsplit)
 
+    def findall(self, pattern, s, flags=0):
+        return self.compile(pattern, flags).findall(s)
+
+    def finditer(self, pattern, s, flags=0):
+        return self.compile(pattern, flags).finditer(s)
+
     def __getattr__(self, name):
         v = getattr(_re, name)
-        if callable(v) and name in ('findall', 'finditer', 'subn'):
+        if callable(v) and name in ('subn',):
             def guarded(pattern, s, *a, **k):
                 if isinstance(s, SymStr):
                     raise EngineLimit('re.%s on symbolic text' % name)
@@ -878,4 +910,8 @@ def install(mod):
     """bind the module-level names a shimmed copy of asm.py needs for symbolic text"""
     mod.re = ReProxy()
     mod.ord = sym_ord
+    # regular expressions compiled when the module was loaded (module-level constants)
+    for name, val in list(vars(mod).items()):
+        if isinstance(val, _re.Pattern):
+            setattr(mod, name, mod.re.compile(val.pattern, val.flags))
     return mod
